@@ -110,8 +110,8 @@ def facades(uses, budget):
         yield
 
 
-def h_lao(sk, rand_actions, rand_next, slack_mode):
-    mdp, v = M.make_mdp(sk, gamma='sym', numeric='generic', nseed=5)
+def h_lao(sk, rand_actions, rand_next, slack_mode, gamma='sym'):
+    mdp, v = M.make_mdp(sk, gamma=gamma, numeric='generic', nseed=5)      # gamma='one': discount exactly 1.0 (acyclic skeletons only)
     W = optimal_values(sk, v)
     hval = {}
     for s in sk.states:
@@ -268,6 +268,9 @@ def tasks(tier, seed):
                         continue      # > 15000 paths / 600 s each at thorough depth (random action order x value orderings); covered on the smaller skeletons
                     T.append(Task('plan_on/%s/%s-%s/%s' % (sk.name, 'ra' if ra else 'oa', 'rn' if rn else 'on', slack), h_lao, (sk, ra, rn, slack), tier='B',
                                   max_paths=15000, deadline_s=600, expect_fail=('mustfail:initial-value-is-the-heuristic',)))
+        if is_acyclic(sk) and sk.name in ('l3', 'l3-falsy-actions'):
+            T.append(Task('plan_on/%s/oa-on/slack/undiscounted' % sk.name, h_lao, (sk, False, False, 'slack', 'one'), tier='B', max_paths=15000, deadline_s=600,
+                          expect_fail=('mustfail:initial-value-is-the-heuristic',)))
         sts = list(sk.states)
         for members in ([sts[0]], sts[:2], sts, [s for s in sts if s not in sk.absorbing]):
             T.append(Task('matrices/%s/%s' % (sk.name, '+'.join(map(str, members))), h_matrices, (sk, members), tier='B'))
